@@ -169,7 +169,7 @@ Lemma iq_clear_fuel_ro : forall f d, rel_only (iq_clear_fuel f d).
 Proof.
   induction f as [|f IH]; intro d; cbn [iq_clear_fuel]; [exact I|].
   apply rel_only_bind; [apply iq_pop_ro|].
-  intros [[[v|]|]|]; cbn [rel_only]; auto.
+  intros [[v|]|]; cbn [rel_only]; auto.
 Qed.
 Lemma iq_clear_ro : rel_only iq_clear.
 Proof. unfold iq_clear; cbn [rel_only]; split; auto. intro z. apply iq_clear_fuel_ro. Qed.
@@ -184,7 +184,7 @@ Proof.
   - apply iq_peek_ro.
   - apply iq_get_ro.
   - apply iq_clear_ro.
-  - cbn [rel_only]. split; auto. intro; exact I.
+  - cbn [rel_only]. split; auto.
 Qed.
 
 (* the queue image, every history, whole memory shifted: no side condition at all *)
